@@ -48,7 +48,25 @@ def catalog(tier="quick"):
     # a wrapped environment that emits MID timesteps with discount 0: Connector behind MultiToSingleWrapper with the MIN
     # of the per-agent discounts (zero as soon as one agent is connected or blocked, long before the episode ends)
     c["Connector.M2SMin"] = lambda: _m2s_min(E.Connector(time_limit=12))
+    # episodes that end for two reasons at once: puzzles one move away from the goal with a time limit of one step (a random
+    # move solves them ON the limit step now and then; the terminal key must still be a fresh one every time)
+    c["RubiksCube.S1T1"] = lambda: _cube_s1(1)
+    c["SlidingTilePuzzle.K1T1"] = lambda: _sliding_k1(1)
     return c
+
+
+def _cube_s1(tl):
+    import jumanji.environments as E
+    from jumanji.environments.logic.rubiks_cube.generator import ScramblingGenerator
+
+    return E.RubiksCube(generator=ScramblingGenerator(cube_size=2, num_scrambles_on_reset=1), time_limit=tl)
+
+
+def _sliding_k1(tl):
+    import jumanji.environments as E
+    from jumanji.environments.logic.sliding_tile_puzzle.generator import RandomWalkGenerator
+
+    return E.SlidingTilePuzzle(generator=RandomWalkGenerator(grid_size=2, num_random_moves=1), time_limit=tl)
 
 
 def _m2s_min(env):
